@@ -652,7 +652,40 @@ def _shift_find(rope, pat, start, end):
     return simp(r + st)
 
 
-for _name in ("split", "strip", "lstrip", "rstrip", "title", "lower", "upper", "partition", "rpartition", "replace",
+_WS = b" \t\n\r\x0b\x0c"
+
+
+def _strip_rope(r, chars, left, right, limit=6):
+    """strip family on a rope with symbolic content: one decision per removed byte, at most `limit` per side"""
+    chars = _WS if chars is None else (chars.encode() if isinstance(chars, str) else _b.bytes(chars))
+    for side in ((0,) if left else ()) + ((1,) if right else ()):
+        k = 0
+        while True:
+            n = r.length()
+            if not decide(n > 0):
+                break
+            b = r[simp(n - 1)] if side else r[0]
+            if not _b.any(decide(b == c) for c in chars):
+                break
+            r = r.slice(0, simp(n - 1)) if side else r.slice(1, n)
+            k += 1
+            if k > limit:
+                raise Unsupported("strip of more than %d symbolic bytes" % limit)
+    return r
+
+
+for _name, _l, _r in (("strip", True, True), ("lstrip", True, False), ("rstrip", False, True)):
+    def _mk(name, l, r):
+        def f(self, chars=None):
+            c = self.concrete_or_none()
+            if c is not None:
+                return getattr(c if not self.mutable else _b.bytearray(c), name)(chars)
+            return _strip_rope(self, chars, l, r)
+        f.__name__ = name
+        return f
+    setattr(SymBytes, _name, _mk(_name, _l, _r))
+
+for _name in ("split", "title", "lower", "upper", "partition", "rpartition", "replace",
               "splitlines", "isdigit", "count"):
     def _mk(name):
         def f(self, *a, **k):
@@ -886,6 +919,26 @@ class SymStr:
 
     def __format__(self, spec):
         return _b.str(self)
+
+    def strip(self, chars=None):
+        return SymStr(_strip_rope(SymBytes(self.rope.segs), chars, True, True))
+
+    def lstrip(self, chars=None):
+        return SymStr(_strip_rope(SymBytes(self.rope.segs), chars, True, False))
+
+    def rstrip(self, chars=None):
+        return SymStr(_strip_rope(SymBytes(self.rope.segs), chars, False, True))
+
+    def startswith(self, p):
+        return SymBytes(self.rope.segs).startswith(p.encode() if isinstance(p, str) else p.rope)
+
+    def endswith(self, p):
+        return SymBytes(self.rope.segs).endswith(p.encode() if isinstance(p, str) else p.rope)
+
+    def __getattr__(self, name):
+        if name in ("upper", "lower", "title", "split", "replace", "partition", "rpartition", "casefold", "swapcase", "zfill", "removeprefix", "removesuffix"):
+            raise Unsupported("str.%s on a symbolic string" % name)
+        raise AttributeError(name)
 
 
 def slen(x):
